@@ -18,7 +18,7 @@ TEXT = {
  "C08": "bounded symbolic execution of array-index recognition, the length step and the relative-index helpers for all doubles x all lengths, and of Array methods on receivers of bounded size with symbolic numeric arguments",
  "C09": "bounded symbolic execution of String.prototype built-ins on symbolic valid-UTF-8 subjects and arbitrary double positions against a UTF-16 reference",
  "C10": "bounded symbolic execution of the pattern translator on symbolic pattern bytes (totality, escape values, rejection of look-ahead/back-references); the RE2 matcher itself is outside the claim",
- "C12": "bounded symbolic execution of otto's date code together with Go's time package from source, against the ES5 15.9.1 day/time formulas stated relationally",
+ "C12": "only the invalid-date part of the property is decided: for every NaN / infinite time value or field, constructor, Date.UTC, setUTC* and 19 accessors yield NaN (bounded symbolic execution through the public API); the calendar algebra for valid time values could not be decided by any available solver and is explicitly outside the claim",
  "C13": "bounded symbolic execution of Math built-ins over all doubles against IEEE/ES5 references, and of escape/URI coding on short symbolic strings",
  "C15": "bounded symbolic execution of toValue/export/To* conversions for every Go numeric kind at full width",
  "C16": "bounded symbolic execution of the numeric conversion Value.toReflectValue (used for writes to bridged slices, arrays and struct fields) for any double x every numeric target kind through a reflect shim: an error, or the delivered Go value equals the JavaScript number; reflective calls, structs, maps are outside the claim",
@@ -33,7 +33,6 @@ NA = [
  ("C20", "data-race freedom under real goroutine interleavings: the engine is single-threaded and models neither a scheduler nor the memory model (concurrency is a declared weak target of this technique family)"),
 ]
 PENDING = {
- "C12": "attempted and withdrawn: every Date path goes through Go's time package (Unix/In/abs/absDate: chains of 64-bit multiply/divide/modulo by constants, with data-dependent normalisation branches) after a floating-point split t -> (t/1000, t%1000); with the time value symbolic none of cvc5, cvc5 --solve-bv-as-int=sum, z3 4.8.12 or z3 5.1.0 decided even the branch-feasibility queries of the engine-generated encoding within 200 s per query, for windows as small as |t| <= 2^17 s (harness kept in attic/c12_date.go.txt); concrete instants would be enumeration, not a solver verdict",
 }
 
 m = {
